@@ -1604,9 +1604,96 @@ class _Inliner:
         return T().visit(node)
 
     # ---- driver ---------------------------------------------------------------------------------------------------------
+    # ---- first-match helpers (round 11) ---------------------------------------------------------------------------------
+    _STR_METHODS = ('replace', 'lower', 'upper', 'strip', 'lstrip', 'rstrip', 'format', 'title', 'capitalize', 'casefold')
+
+    def _first_match_helper(self, g) -> Optional[Tuple[ast.For, ast.If]]:
+        """`def h(..): for T in (E1, .., En): if C: return T` + `return None` with every Ei a str (a parameter annotated str, a string
+        literal, or a str method of one): the helper answers the first Ei for which C holds, or None - and None is none of the Ei."""
+        body = self._body(g)
+        if g.decorator_list and not all(isinstance(d, ast.Name) and d.id == 'staticmethod' for d in g.decorator_list):
+            return None
+        if len(body) == 2 and isinstance(body[1], ast.Return) and (body[1].value is None or (
+                isinstance(body[1].value, ast.Constant) and body[1].value.value is None)):
+            body = body[:1]
+        if len(body) != 1 or not isinstance(body[0], ast.For) or body[0].orelse:
+            return None
+        lo = body[0]
+        if not (isinstance(lo.target, ast.Name) and isinstance(lo.iter, (ast.Tuple, ast.List)) and lo.iter.elts and len(lo.body) == 1
+                and isinstance(lo.body[0], ast.If) and not lo.body[0].orelse and len(lo.body[0].body) == 1
+                and isinstance(lo.body[0].body[0], ast.Return) and isinstance(lo.body[0].body[0].value, ast.Name)
+                and lo.body[0].body[0].value.id == lo.target.id):
+            return None
+        strs = {a.arg for a in g.args.args if isinstance(a.annotation, ast.Name) and a.annotation.id == 'str'}
+
+        def is_str(e) -> bool:
+            if isinstance(e, ast.Constant):
+                return isinstance(e.value, str)
+            if isinstance(e, ast.Name):
+                return e.id in strs
+            return isinstance(e, ast.Call) and isinstance(e.func, ast.Attribute) and e.func.attr in self._STR_METHODS and is_str(e.func.value)
+        if not all(is_str(e) for e in lo.iter.elts):
+            return None
+        # the test must be without effects (it is asked for every element now, not only up to the first match)
+        for c in ast.walk(lo.body[0].test):
+            if isinstance(c, ast.Call) and not (isinstance(c.func, ast.Attribute) and c.func.attr in (
+                    'has_attribute', 'is_scalar', 'is_mapping', 'is_sequence', 'startswith', 'endswith') or isinstance(
+                    c.func, ast.Name) and c.func.id in ('isinstance', 'hasattr', 'len', 'issubclass')):
+                return None
+        if any(isinstance(n, (ast.Yield, ast.YieldFrom, ast.Await, ast.NamedExpr)) for n in ast.walk(g)):
+            return None
+        return lo, lo.body[0]
+
+    def _inline_first_match(self, st: ast.stmt, nxt: Optional[ast.stmt], caller_cls, caller_self) -> Optional[List[ast.stmt]]:
+        """`x = h(args)` followed by `if x is None: <B, leaving>` with h a first-match helper ->
+        `_fmK = [T for T in XS if C]; if not _fmK: <B>; x = _fmK[0]` (the input form of N86, which turns it into for/break/else)."""
+        if not (isinstance(st, ast.Assign) and len(st.targets) == 1 and isinstance(st.targets[0], ast.Name) and isinstance(st.value, ast.Call)):
+            return None
+        x = st.targets[0].id
+        if not (isinstance(nxt, ast.If) and not nxt.orelse and isinstance(nxt.test, ast.Compare) and len(nxt.test.ops) == 1
+                and isinstance(nxt.test.ops[0], ast.Is) and isinstance(nxt.test.left, ast.Name) and nxt.test.left.id == x
+                and isinstance(nxt.test.comparators[0], ast.Constant) and nxt.test.comparators[0].value is None
+                and nxt.body and isinstance(nxt.body[-1], (ast.Continue, ast.Return, ast.Raise))):
+            return None
+        self.cur_stmt = st
+        g, recv = self._callee(st.value, caller_cls, caller_self)
+        if g is None:
+            return None
+        fm = self._first_match_helper(g)
+        if fm is None:
+            return None
+        try:
+            pre, mapping, rename = self._bind(g, st.value, recv)
+        except NotInlinable:
+            return None
+        lo, test_if = fm
+        ren = _Rename(mapping, rename)
+        tgt = ren.visit(copy.deepcopy(lo.target))
+        it = ren.visit(copy.deepcopy(lo.iter))
+        cond = ren.visit(copy.deepcopy(test_if.test))
+        L = '_fm%d' % self.counter
+        s1 = ast.Assign([ast.Name(L, ast.Store())], ast.ListComp(ast.Name(tgt.id, ast.Load()), [ast.comprehension(tgt, it, [cond], 0)]))
+        s2 = ast.If(ast.UnaryOp(ast.Not(), ast.Name(L, ast.Load())), list(nxt.body), [])
+        s3 = ast.Assign([ast.Name(x, ast.Store())], ast.Subscript(ast.Name(L, ast.Load()), ast.Constant(0), ast.Load()))
+        for n_, src in ((s1, st), (s2, nxt), (s3, st)):
+            ast.copy_location(n_, src)
+            ast.fix_missing_locations(n_)
+        self.log.append('%s: first-match helper %s written out at its call (step I, first match)' % (self.cur_q or '<module>', g.name))
+        return pre + [s1, s2, s3]
+
     def _process_block(self, stmts: List[ast.stmt], caller_cls, caller_self) -> List[ast.stmt]:
         out: List[ast.stmt] = []
-        for st in stmts:
+        skip = False
+        for idx, st in enumerate(stmts):
+            if skip:
+                skip = False
+                continue
+            fmrep = self._inline_first_match(st, stmts[idx + 1] if idx + 1 < len(stmts) else None, caller_cls, caller_self)
+            if fmrep is not None:
+                self.changed = True
+                out += fmrep
+                skip = True
+                continue
             if isinstance(st, (ast.FunctionDef, ast.AsyncFunctionDef, ast.ClassDef)):
                 out.append(st)
                 continue
